@@ -101,6 +101,14 @@ def check(run: Run, ctx) -> None:
         doc = gs.gen_spec(r, o)
         if i % 3 == 1:
             doc = drop_undeclared_declarations(doc, r)
+        if i % 2 == 0:
+            # unions whose members collapse to one python type (de-duplication must not go through an unordered container)
+            prim = [{"type": "string"}, {"type": "integer"}, {"type": "string", "format": "email"}, {"type": "boolean"}, {"type": "string", "format": "uri"},
+                    {"type": "number"}, {"type": "string", "format": "hostname"}]
+            for n in ("MixedA", "MixedB", "MixedC"):
+                doc["components"]["schemas"][n] = {r.choice(["oneOf", "anyOf"]): r.sample(prim, r.randint(3, 6))}
+            doc["components"]["schemas"]["MixedHolder"] = {"type": "object", "properties": {
+                "value": {"oneOf": r.sample(prim, 4)}, "other": {"anyOf": r.sample(prim, 5)}, "ref": {"$ref": "#/components/schemas/MixedA"}}}
         pkg, core = [("pkg.client", None), ("client", "core"), ("a.b.client", "a.b.core")][i % 3]
         # generate ; generate(force=False) is checked where no recorded finding makes it fail: embedded core (F33/F21), no duplicate ids (F19)
         cases.append({"id": f"c09-{i}", "doc": doc, "warm_doc": gs.gen_spec(rng(f"C09:warm:{i}"), gs.Opts(mainstream=True)), "package": pkg, "core": core,
